@@ -104,6 +104,8 @@ Definition with_parseinfo (node : value) (r : nat) (p endp : nat) : value :=
   if parseinfo ec then
     match node with
     | VDict a =>
+      (* only an AST carries it: the plain dict that a nested override leaks (it holds the override key) has no parseinfo attribute *)
+      if ast_has a key_at then node else
       let info := VInfo r p endp (lineat p) (lineat endp) in
       VDict (ast_put (ast_put a key_parseinfo info) key_parseinfo2 info)
     | _ => node
